@@ -786,7 +786,7 @@ def dataset_case(ctx, mods, cfgs, MK, i, rng):
         last_rows = int(np.asarray(held[c][-1][MK]).shape[0])
 
         def bad_loss(p_, b_, r_, last_rows=last_rows):
-          if int(b_[MK].shape[0]) == last_rows:
+          if int(next(v_ for k_, v_ in b_.items() if k_ != MK).shape[0]) == last_rows:
             raise _LossFailure('user loss failed on this batch')
           return cfg.loss(p_, b_, r_)
 
@@ -794,6 +794,9 @@ def dataset_case(ctx, mods, cfgs, MK, i, rng):
           models.evaluate_average_loss(jparams, held[c], keys[c], bad_loss, cfg.reg)
         except _LossFailure:
           ctx.count('hit:loss-raised-mid-evaluation')
+        except Exception as e_:  # pylint: disable=broad-except
+          ctx.violation('eager/failing-loss-call-raised-something-else',
+                        f'evaluate_average_loss with a loss that raises a user exception raised {type(e_).__name__} instead', {**gw, 'client': c})
         r = ctx.call('evaluate_average_loss[after-failed-call]', models.evaluate_average_loss, jparams, held[c], keys[c], cfg.loss, cfg.reg,
                      witness={**gw, 'client': c})
         if r.ok:
